@@ -404,18 +404,21 @@ class TokamakEquilibrium(Equilibrium):
             ):
                 # if psi_outer is not beyond the last point of psi1D, no need to extend
                 # Exclude first point since duplicates last point in core
-                psiSOL = np.linspace(psi1D[-1], psi_outer, 50)[1:]
+                psi_edge = psi1D[-1]
+                psiSOL = np.linspace(psi_edge, psi_outer, 50)[1:]
                 psi1D = np.concatenate([psi1D, psiSOL])
 
                 # fpol constant in SOL
                 fpol1D = np.concatenate([fpol1D, np.full(psiSOL.shape, fpol1D[-1])])
 
-            if pressure is not None:
-                # Use an exponential decay for the pressure, based on
-                # the value and gradient at the plasma edge
-                p0 = pressure[-1]
-                # p = p0 * exp( (psi - psi0) * dpdpsi / p0)
-                pressure = np.concatenate([pressure, p0 * np.exp(psiSOL * dpdpsi / p0)])
+                if pressure is not None:
+                    # Use an exponential decay for the pressure, based on
+                    # the value and gradient at the plasma edge
+                    p0 = pressure[-1]
+                    # p = p0 * exp( (psi - psi0) * dpdpsi / p0)
+                    pressure = np.concatenate(
+                        [pressure, p0 * np.exp((psiSOL - psi_edge) * dpdpsi / p0)]
+                    )
 
         self.magneticFunctionsFromGrid(
             R1D, Z1D, psi2D, self.user_options.psi_interpolation_method
